@@ -54,6 +54,9 @@ func (c *Ctx) handlerNets() (map[string][]netPath, error) {
 						isProto = true
 					}
 				}
+				if !isProto && callee != nil && in.Inline != nil && in.Inline(callee) && !loopReturns2(c, callee) {
+					return nil // a new helper (e.g. an extracted pop/push): executed in place
+				}
 				if isProto && len(args) == 4 {
 					// axiom (FRM-CHECKS): the call protocol replaces xArgs arguments by xRets results
 					cur := m.cur(st)
@@ -228,4 +231,747 @@ func (c *Ctx) stackTouchers() map[types.Object]bool {
 	}
 	stackTouchersCache = touch
 	return touch
+}
+
+// ---------------------------------------------------------------------------------
+// effect typing of the compile-cases
+
+// expected net effect of a node kind: "V" one value, "V2" two, "S" none, "R" the
+// requested result count of a call, "" not judged here.
+var kindEffect = map[string]string{
+	"(int)": "V", "(char)": "V", "(float)": "V", "(string)": "V", "<": "V", "&&": "V",
+	"true": "V", "(name)": "V", ".": "V", "slice": "V", "lambda": "V", "...": "V", "make": "V",
+	"[]": "V", "map": "V", "index": "V", "indexOk": "V2", "negate": "V", "complement": "V", "new": "V",
+	"|=": "S", "const": "S", ":=": "S", "function": "S", "=": "S", "block": "S", "init": "S", "if": "S",
+	"switch": "S", "for": "S", "range": "S", "break": "S", "continue": "S", "type": "S", "method": "S",
+	"~": "S", "package": "S", "import": "S",
+	"call": "R",
+	"func":   "", // FUNC pushes the function and jumps over header and body: LAY-FUNC
+	"return": "", // the values stay for the caller: INS-PATCH / FRM-PAIR
+}
+
+// child positions that are statements (no value); every other compiled child is an
+// expression (one value).  "T": as many values as the statement has targets (PAR-RESIZE).
+var childClass = map[string]map[string]string{
+	"if":     {"0": "S", "2": "S", "3": "S"},
+	"for":    {"0": "S", "2": "S", "3": "S"},
+	"range":  {"3": "S"},
+	"switch": {"1/i/1/*": "S", "2/*": "S"},
+	"block":  {"*": "S"},
+	":=":     {"1": "T"},
+	"=":      {"1": "T"},
+}
+
+// kinds whose compile-case takes all children at once: the number of children is fixed by the grammar
+var fixedArity = map[string]int64{"<": 2}
+
+// Go's arities of the builtins that compile to one instruction
+var builtinArity = map[string]int64{"len": 1, "copy": 2, "delete": 2, "panic": 1}
+
+type depthJudge struct {
+	c     *Ctx
+	r     *R
+	nets  map[string][]netPath
+	m     *layMachine
+	label string
+}
+
+// targetsTerm: tok.Tokens[0].Tokens as the interpreter names it.
+func (d *depthJudge) targetsTerm(st *State) *T {
+	var tok *T
+	for o, v := range st.Vars {
+		if o != nil && o.Name() == "tok" && v != nil && v.Op == "var" {
+			tok = v
+		}
+	}
+	if tok == nil {
+		tok = tVar(nil, "tok")
+	}
+	return tField(tIndex(tField(tok, "Tokens"), tInt(0)), "Tokens")
+}
+
+func lconst(k int64) *linForm { l := newLin(); l.K = k; return l }
+
+// insEffect: fall-through and taken effect of a literal instruction.
+func (d *depthJudge) insEffect(ins *T) (fall, taken *linForm, jumps, uncond bool, err error) {
+	code := litField(ins, "Code")
+	if code == nil || code.Op != "const" {
+		return nil, nil, false, false, fmt.Errorf("opcode is not a constant (%v)", code)
+	}
+	ps, ok := d.nets[code.Name]
+	if !ok {
+		switch code.Name {
+		case "codeBreak", "codeContinue":
+			return lconst(0), nil, false, true, nil // placeholders, rewritten to JUMP by the enclosing loop/switch
+		case "codeType", "codeTODO":
+			return lconst(0), nil, false, false, nil // FUNC header data, never executed
+		}
+		return nil, nil, false, false, fmt.Errorf("no handler for %s", code.Name)
+	}
+	subst := func(l *linForm) (*linForm, error) {
+		out := l
+		for k := range l.Coef {
+			nk := normIns(k)
+			var val *T
+			switch {
+			case strings.Contains(nk, "splitParams(I."):
+				f := nk[strings.Index(nk, "splitParams(I.")+len("splitParams(I."):][:1]
+				packed := litField(ins, f)
+				idx := 0
+				if strings.Contains(nk, "#1") {
+					idx = 1
+				}
+				pk := packed
+				for pk != nil && pk.Op == "conv" && len(pk.Args) == 1 {
+					pk = pk.Args[0]
+				}
+				if pk == nil || pk.Op != "call" || pk.Name != "joinParams" || len(pk.Args) != 2 {
+					return nil, fmt.Errorf("%s.%s is unpacked by the handler but not built with joinParams", code.Name, f)
+				}
+				val = pk.Args[idx]
+			case strings.Contains(nk, "I.A"), strings.Contains(nk, "I.B"), strings.Contains(nk, "I.C"):
+				f := "A"
+				if strings.Contains(nk, "I.B") {
+					f = "B"
+				} else if strings.Contains(nk, "I.C") {
+					f = "C"
+				}
+				val = litField(ins, f)
+				if val == nil {
+					val = tInt(0)
+				}
+			default:
+				return nil, fmt.Errorf("the effect of %s depends on %s", code.Name, nk)
+			}
+			out = out.subst(k, linOf(val))
+		}
+		return out, nil
+	}
+	allJump, anyFall := true, false
+	allPanic := true
+	for _, p := range ps {
+		if !p.Panic {
+			allPanic = false
+		}
+	}
+	if allPanic {
+		return lconst(0), nil, false, true, nil // never falls through
+	}
+	// an effect that depends on an operand being zero or not: [X != 0] is kept as an atom nz(X)
+	for _, f := range []string{"A", "B", "C"} {
+		var ez, en *linForm
+		okPart, nZ, nN := true, 0, 0
+		for _, p := range ps {
+			if p.Jump || p.Exit || p.Panic {
+				okPart = false
+				break
+			}
+			e, err := subst(p.Delta)
+			if err != nil {
+				okPart = false
+				break
+			}
+			cs := nosp(p.Cond)
+			switch {
+			case strings.Contains(cs, "I."+f+"==0"):
+				nZ++
+				if ez != nil && ez.String() != e.String() {
+					okPart = false
+				}
+				ez = e
+			case strings.Contains(cs, "I."+f+"!=0"):
+				nN++
+				if en != nil && en.String() != e.String() {
+					okPart = false
+				}
+				en = e
+			default:
+				okPart = false
+			}
+		}
+		if okPart && nZ > 0 && nN > 0 {
+			diff := en.add(ez, -1)
+			if k, isC := diff.isConst(); isC {
+				val := litField(ins, f)
+				if val == nil {
+					return ez, nil, false, false, nil
+				}
+				nz := tCall("nz", stripIntConv(val))
+				return ez.add(toLin(nz).scale(k), 1), nil, false, false, nil
+			}
+		}
+	}
+	for _, p := range ps {
+		if p.Panic {
+			continue
+		}
+		e, err := subst(p.Delta)
+		if err != nil {
+			return nil, nil, false, false, err
+		}
+		if p.Jump || p.Exit {
+			jumps = jumps || p.Jump
+			if p.Jump {
+				if taken != nil && taken.String() != e.String() {
+					return nil, nil, false, false, fmt.Errorf("%s has taken paths with different effects", code.Name)
+				}
+				taken = e
+			}
+			continue
+		}
+		allJump = false
+		anyFall = true
+		if fall != nil && fall.String() != e.String() {
+			return nil, nil, false, false, fmt.Errorf("%s has fall-through paths with different effects (%s vs %s)", code.Name, fall, e)
+		}
+		fall = e
+	}
+	uncond = allJump && !anyFall
+	if fall == nil {
+		fall = lconst(0)
+	}
+	return fall, taken, jumps, uncond, nil
+}
+
+// segEffect: the effect of a child segment.
+func (d *depthJudge) segEffect(st *State, a *atom, iterEff map[*loopIter]*linForm) (*linForm, error) {
+	seg := a.Seg
+	if d.m.ls(st).zero[seg.lenKey()] {
+		return lconst(0), nil
+	}
+	switch seg.Kind {
+	case "loop-entry":
+		return lconst(0), nil
+	case "loop-result":
+		if e, ok := iterEff[seg.Iter]; ok && e != nil {
+			return e, nil
+		}
+		return nil, fmt.Errorf("the effect of the loop at %s is not known", d.c.Pos(seg.Node))
+	}
+	if seg.Src != nil && seg.Src.Op == "lit" && strings.HasPrefix(seg.Src.Name, "[]") {
+		// a literal slice of instructions
+		total := lconst(0)
+		for _, el := range seg.Src.Args {
+			fall, _, _, _, err := d.insEffect(el)
+			if err != nil {
+				return nil, err
+			}
+			total = total.add(fall, 1)
+		}
+		return total, nil
+	}
+	src := seg.Src
+	for src != nil && src.Op == "call" && src.Name == "compiler.optimize" && len(src.Args) == 1 {
+		src = src.Args[0]
+	}
+	if src == nil || src.Op != "call" {
+		return nil, fmt.Errorf("segment %s has no recognisable source", seg.lenKey())
+	}
+	switch src.Name {
+	case "compiler.toData":
+		return lconst(1), nil // a composite literal or expression leaves one value (judged in toData itself)
+	case "compiler.compile", "compiler.compileAll":
+	default:
+		return nil, fmt.Errorf("segment produced by %s", src.Name)
+	}
+	child := src.Args[len(src.Args)-1]
+	path := strings.Join(childPath(src), "/")
+	class := "E"
+	if cc, ok := childClass[d.label][path]; ok {
+		class = cc
+	}
+	switch class {
+	case "S":
+		return lconst(0), nil
+	case "T":
+		// as many values as targets: tok.Tokens[0].Tokens
+		return toLin(tCall("len", d.targetsTerm(st))), nil
+	}
+	if src.Name == "compiler.compileAll" {
+		if n, ok := fixedArity[d.label]; ok && child.String() == "tok.Tokens" {
+			return lconst(n), nil
+		}
+		return toLin(tCall("len", child)), nil
+	}
+	return lconst(1), nil
+}
+
+// tripCount: how often a sequence-building loop runs, as a linear form (and a divisor for
+// `i += k` loops).
+func (d *depthJudge) tripCount(it *loopIter) (*linForm, int64, error) {
+	switch l := it.Node.(type) {
+	case *ast.RangeStmt:
+		return toLin(tCall("len", d.m.in.eval(it.Exits[0].St.Clone(), l.X))), 1, nil
+	case *ast.ForStmt:
+		be, ok := unparen(l.Cond).(*ast.BinaryExpr)
+		if !ok {
+			return nil, 0, fmt.Errorf("loop condition")
+		}
+		call, ok := unparen(be.Y).(*ast.CallExpr)
+		if !ok || d.c.CalleeName(call) != "builtin.len" {
+			return nil, 0, fmt.Errorf("loop bound is not len(...)")
+		}
+		cnt := toLin(tCall("len", d.m.in.eval(it.Exits[0].St.Clone(), call.Args[0])))
+		start := int64(-1)
+		if as, ok := l.Init.(*ast.AssignStmt); ok && len(as.Rhs) == 1 {
+			if v, ok := d.c.ConstInt(as.Rhs[0]); ok {
+				start = v
+			}
+		}
+		step := int64(0)
+		switch p := l.Post.(type) {
+		case *ast.IncDecStmt:
+			step = 1
+		case *ast.AssignStmt:
+			if len(p.Rhs) == 1 {
+				if v, ok := d.c.ConstInt(p.Rhs[0]); ok && p.Tok.String() == "+=" {
+					step = v
+				}
+			}
+		}
+		switch {
+		case be.Op.String() == "<" && start == 0 && step >= 1:
+			return cnt, step, nil
+		case be.Op.String() == "<=" && start == 1 && step == 1:
+			return cnt, 1, nil
+		}
+		return nil, 0, fmt.Errorf("loop header is not a recognised counting form")
+	}
+	return nil, 0, fmt.Errorf("not a loop")
+}
+
+// seqEffect walks one atom sequence; returns the net effect and reports jump inconsistencies.
+func (d *depthJudge) seqEffect(p *layoutPath, atoms []*atom, iterEff map[*loopIter]*linForm, key string, pos string) (*linForm, bool) {
+	starts := d.m.starts(p, atoms)
+	depthAt := make([]*linForm, len(atoms)+1)
+	depthAt[0] = lconst(0)
+	okAll := true
+	for i, a := range atoms {
+		cur := depthAt[i]
+		if a.Seg != nil {
+			e, err := d.segEffect(p.St, a, iterEff)
+			if err != nil {
+				d.r.undecided(key, pos, err.Error())
+				return nil, false
+			}
+			if cur != nil {
+				d.setDepth(depthAt, i+1, cur.add(e, 1), key, pos, &okAll)
+			}
+			continue
+		}
+		fall, taken, jumps, uncond, err := d.insEffect(a.Ins)
+		if err != nil {
+			d.r.undecided(key, pos, err.Error())
+			return nil, false
+		}
+		if cur != nil && jumps && taken != nil {
+			// target = start of this instruction + 1 + A
+			if av := litField(a.Ins, "A"); av != nil || opName(a.Ins) == "Range" || opName(a.Ins) == "Iter" {
+				operand := av
+				switch opName(a.Ins) {
+				case "Range":
+					operand = litField(a.Ins, "B")
+				case "Iter":
+					operand = litField(a.Ins, "C")
+				}
+				if operand != nil {
+					tgt := d.m.applyZero(p.St, starts[i].add(lconst(1), 1).add(linOf(operand), 1))
+					for j := range starts {
+						if d.m.applyZero(p.St, starts[j]).String() == tgt.String() {
+							d.setDepth(depthAt, j, cur.add(taken, 1), key+" jump "+opName(a.Ins), pos, &okAll)
+							break
+						}
+					}
+				}
+			}
+		}
+		if uncond {
+			continue // the next atom is reached through jumps only
+		}
+		if cur != nil {
+			d.setDepth(depthAt, i+1, cur.add(fall, 1), key, pos, &okAll)
+		}
+	}
+	end := depthAt[len(atoms)]
+	if end == nil {
+		// ends in an unconditional transfer: take the last known depth
+		for i := len(atoms); i >= 0; i-- {
+			if depthAt[i] != nil {
+				end = depthAt[i]
+				break
+			}
+		}
+	}
+	return end, okAll
+}
+
+func (d *depthJudge) setDepth(depthAt []*linForm, j int, v *linForm, key, pos string, okAll *bool) {
+	if depthAt[j] == nil {
+		depthAt[j] = v
+		return
+	}
+	if depthAt[j].String() != v.String() {
+		*okAll = false
+		d.r.fail(key, pos, fmt.Sprintf("compile(%q): the operand stack has depth %s at one arrival and %s at another arrival of the same point of the emitted code: a branch leaves a value behind (or consumes one too many), so the statement is not stack-neutral on every path", d.label, depthAt[j], v))
+	}
+}
+
+func ruleLayDepth(c *Ctx, r *R) {
+	cs, err := c.compileSwitch()
+	if err != nil {
+		r.undecided("compile", "-", err.Error())
+		return
+	}
+	nets, err := c.handlerNets()
+	if err != nil {
+		r.undecided("exec", "-", err.Error())
+		return
+	}
+	judged := 0
+	judge := func(label string, bind map[string]*T, expectOverride *linForm, tag string) {
+		sc := cs.ByLabel[label]
+		kind, known := kindEffect[label]
+		if sc == nil || !known || kind == "" {
+			return
+		}
+		m := newLayMachine(c)
+		cl, err := m.runCaseWith(cs, label, bind)
+		pos := c.Pos(sc.Clause)
+		key := "depth " + label + tag
+		if err != nil {
+			r.undecided(key, pos, err.Error())
+			return
+		}
+		d := &depthJudge{c: c, r: r, nets: nets, m: m, label: label}
+		// loops first: per-iteration effect times trip count
+		iterEff := map[*loopIter]*linForm{}
+		for ii, it := range cl.Iters {
+			var per *linForm
+			okIt := true
+			for _, ex := range it.Exits {
+				e, ok := d.seqEffect(ex, ex.Atoms, iterEff, fmt.Sprintf("%s loop%d", key, ii), c.Pos(it.Node))
+				if e == nil || !ok {
+					okIt = false
+					break
+				}
+				if per != nil && per.String() != e.String() {
+					r.fail(fmt.Sprintf("%s loop%d", key, ii), c.Pos(it.Node), fmt.Sprintf("compile(%q): one iteration of the loop at %s changes the stack depth by %s on one path and by %s on another", label, c.Pos(it.Node), per, e))
+					okIt = false
+					break
+				}
+				per = e
+			}
+			if !okIt || per == nil {
+				continue
+			}
+			total := lconst(0)
+			if k, isC := per.isConst(); !isC || k != 0 {
+				trip, div, err := d.tripCount(it)
+				if err != nil {
+					r.undecided(fmt.Sprintf("%s loop%d", key, ii), c.Pos(it.Node), "per-iteration effect "+per.String()+" but "+err.Error())
+					continue
+				}
+				kk, isC := per.isConst()
+				if !isC || kk%div != 0 {
+					r.undecided(fmt.Sprintf("%s loop%d", key, ii), c.Pos(it.Node), "per-iteration effect "+per.String()+" with step "+fmt.Sprint(div))
+					continue
+				}
+				total = trip.scale(kk / div)
+			}
+			if it.IncludesBefore && len(it.Before) > 0 {
+				pre := &layoutPath{Atoms: it.Before, St: it.Exits[0].St}
+				e, ok := d.seqEffect(pre, it.Before, iterEff, fmt.Sprintf("%s loop%d prefix", key, ii), c.Pos(it.Node))
+				if e == nil || !ok {
+					continue
+				}
+				total = total.add(e, 1)
+			}
+			iterEff[it] = total
+		}
+		for pi, p := range cl.Paths {
+			atoms := m.live(p)
+			pkey := fmt.Sprintf("%s path%d", key, pi)
+			e, ok := d.seqEffect(p, atoms, iterEff, pkey, pos)
+			if e == nil {
+				continue
+			}
+			judged++
+			var want *linForm
+			switch kind {
+			case "V":
+				want = lconst(1)
+			case "V2":
+				want = lconst(2)
+			case "S":
+				want = lconst(0)
+			case "R":
+				want = expectOverride
+			}
+			if want == nil {
+				continue
+			}
+			if len(atoms) == 0 && kind != "S" {
+				r.ok(pkey, "emits nothing: not a value-producing path of a valid program")
+				continue
+			}
+			got := m.applyZero(p.St, e)
+			if ok {
+				r.check(got.String() == want.String(), pkey, pos, "net stack effect "+want.String(),
+					fmt.Sprintf("compile(%q) emits code whose net effect on the operand stack is %s on the path [%s], but a %s node must leave %s: %s", label, got, condStrings(p.St), label, want, depthWhy(kind)))
+			}
+		}
+	}
+	var labels []string
+	for l := range kindEffect {
+		labels = append(labels, l)
+	}
+	sort.Strings(labels)
+	for _, l := range labels {
+		if l == "call" {
+			continue
+		}
+		judge(l, nil, nil, "")
+	}
+	// calls: the requested result count R = tok.Tokens[2].Int(); one run per builtin name
+	rTerm := toLin(tCall("token.Int", tOpaque("tok.Tokens[2]")))
+	_ = rTerm
+	judgeCalls(c, r, cs, nets, &judged)
+	judgeToData(c, r, nets, &judged)
+	if judged < 40 {
+		r.undecided("depth", "-", fmt.Sprintf("only %d emitted sequences could be judged", judged))
+	}
+}
+
+func depthWhy(kind string) string {
+	switch kind {
+	case "S":
+		return "a statement that leaves a value behind grows the operand stack on every execution (in a loop: without bound), one that consumes too much eats a local slot"
+	default:
+		return "the consumer of the expression pops a value that was never pushed (or a stray value shifts every later operand)"
+	}
+}
+
+// judgeCalls: compile("call") — user calls leave the requested number of results; each
+// builtin instruction leaves what Go's builtin yields.
+func judgeCalls(c *Ctx, r *R, cs *bigSwitch, nets map[string][]netPath, judged *int) {
+	sc := cs.ByLabel["call"]
+	if sc == nil {
+		return
+	}
+	pos := c.Pos(sc.Clause)
+	names := []string{""}
+	vals, order := c.stringKeyed(c.mapLit("builtinMap"))
+	_ = vals
+	names = append(names, order...)
+	for _, name := range names {
+		var bind map[string]*T
+		tag := " user"
+		if name != "" {
+			bind = map[string]*T{"tok.Tokens[0].Text": tStr(name)}
+			tag = " builtin " + name
+		}
+		m := newLayMachine(c)
+		cl, err := m.runCaseWith(cs, "call", bind)
+		if err != nil {
+			r.undecided("depth call"+tag, pos, err.Error())
+			continue
+		}
+		d := &depthJudge{c: c, r: r, nets: nets, m: m, label: "call"}
+		for pi, p := range cl.Paths {
+			cond := condStrings(p.St)
+			// keep the paths that belong to this run
+			isBuiltinPath := false
+			for _, a := range p.Atoms {
+				if a.Ins != nil {
+					if code := litField(a.Ins, "Code"); code != nil && code.Op == "const" {
+						if _, isB := builtinOpcodes(c)[code.Name]; isB {
+							isBuiltinPath = true
+						}
+					}
+				}
+			}
+			if (name == "") == isBuiltinPath {
+				continue
+			}
+			if name == "" && strings.Contains(cond, "builtinMap[") && !strings.Contains(cond, "== 0)") {
+				continue
+			}
+			atoms := m.live(p)
+			pkey := fmt.Sprintf("depth call%s path%d", tag, pi)
+			e, ok := d.seqEffect(p, atoms, map[*loopIter]*linForm{}, pkey, pos)
+			if e == nil || !ok {
+				continue
+			}
+			*judged++
+			got := e
+			argsLen := "len(tok.Tokens[1].Tokens)"
+			// substitute the builtin's arity for the argument count
+			if n, ok := builtinArity[name]; ok {
+				for k := range got.Coef {
+					if nosp(k) == argsLen {
+						got = got.subst(k, lconst(n))
+					}
+				}
+			}
+			rs := "token.Int(tok.Tokens[2])"
+			switch {
+			case name == "":
+				// conversions: one argument, one value
+				isConv := false
+				for _, a := range atoms {
+					if a.Ins != nil && opName(a.Ins) == "Convert" {
+						isConv = true
+					}
+				}
+				if isConv {
+					for k := range got.Coef {
+						if nosp(k) == argsLen {
+							got = got.subst(k, lconst(1))
+						}
+					}
+					r.check(got.String() == "1", pkey, pos, "a conversion leaves one value", fmt.Sprintf("compile(\"call\"): a conversion leaves %s values on the stack (path [%s])", got, cond))
+					continue
+				}
+				r.check(nosp(got.String()) == rs, pkey, pos, "a call leaves the requested number of results", fmt.Sprintf("compile(\"call\") emits code that leaves %s values where the call node asks for %s (path [%s]): arguments or results are miscounted and the stack is misaligned after the call", got, rs, cond))
+			case name == "copy":
+				// Go's copy yields its count: 0 values as a statement, 1 when the result is used
+				ok0 := got.String() == "0" // no result at all
+				hasR := false
+				for k := range got.Coef {
+					if nosp(k) == rs {
+						hasR = true
+					}
+				}
+				_ = ok0
+				if nosp(got.String()) == "nz("+rs+")" {
+					hasR = true
+				}
+				r.check(hasR || nosp(got.String()) == rs, pkey, pos, "copy leaves its count when asked for a result", fmt.Sprintf("compile(\"call\") for the builtin copy leaves %s values whatever the context asks for: `n := copy(a, b)`, `return copy(a, b)`, `if copy(a, b) == 2` consume a stack entry that was never pushed", got))
+			case name == "len", name == "append":
+				r.check(got.String() == "1", pkey, pos, name+" leaves one value", fmt.Sprintf("compile(\"call\") for the builtin %s leaves %s values (Go: one)", name, got))
+			case name == "panic":
+				r.ok(pkey, "panic does not return")
+			case name == "delete":
+				r.check(got.String() == "0", pkey, pos, name+" leaves nothing", fmt.Sprintf("compile(\"call\") for the builtin %s leaves %s values (Go: none)", name, got))
+			default:
+				r.ok(pkey, "builtin "+name+": net effect "+got.String()+" (not judged)")
+			}
+		}
+	}
+}
+
+var builtinOpcodesCache map[string]bool
+
+func builtinOpcodes(c *Ctx) map[string]bool {
+	if builtinOpcodesCache != nil {
+		return builtinOpcodesCache
+	}
+	out := map[string]bool{}
+	vals, _ := c.stringKeyed(c.mapLit("builtinMap"))
+	for _, v := range vals {
+		if n := c.codeConstName(v); n != "" {
+			out[n] = true
+		}
+	}
+	builtinOpcodesCache = out
+	return out
+}
+
+// runFunc: execute a function that returns []instruction with the layout machine
+// (used for compiler.toData); the layouts are the returned sequences.
+func (m *layMachine) runFunc(fd *ast.FuncDecl) (*caseLayouts, error) {
+	st := newState()
+	m.in.bindParams(st, fd.Recv, fd.Type, nil)
+	m.in.Overflow = false
+	m.iters = nil
+	m.in.fnStack = append(m.in.fnStack, fd.Type)
+	defer func() { m.in.fnStack = m.in.fnStack[:len(m.in.fnStack)-1] }()
+	res := m.in.execStmts(fd.Body.List, []*State{st})
+	out := &caseLayouts{Label: fd.Name.Name, Iters: m.iters}
+	for _, r := range res {
+		if r.Done != "return" || len(r.Ret) != 1 {
+			continue
+		}
+		atoms, ok := seqAtoms(r.Ret[0])
+		if !ok {
+			out.Flags = append(out.Flags, "result is not a sequence on some path")
+			continue
+		}
+		out.Paths = append(out.Paths, &layoutPath{Atoms: atoms, St: r})
+	}
+	if len(out.Paths) == 0 {
+		return nil, fmt.Errorf("%s: no returning path yields an instruction sequence", fd.Name.Name)
+	}
+	return out, nil
+}
+
+// judgeToData: compiler.toData leaves exactly one value for every shape of literal.
+func judgeToData(c *Ctx, r *R, nets map[string][]netPath, judged *int) {
+	fd := c.Func("compiler.toData")
+	if fd == nil {
+		r.undecided("depth toData", "-", "compiler.toData not found")
+		return
+	}
+	m := newLayMachine(c)
+	cl, err := m.runFunc(fd)
+	if err != nil {
+		r.undecided("depth toData", c.Pos(fd), err.Error())
+		return
+	}
+	d := &depthJudge{c: c, r: r, nets: nets, m: m, label: "toData"}
+	iterEff := map[*loopIter]*linForm{}
+	for ii, it := range cl.Iters {
+		var per *linForm
+		okIt := true
+		for _, ex := range it.Exits {
+			e, ok := d.seqEffect(ex, ex.Atoms, iterEff, fmt.Sprintf("depth toData loop%d", ii), c.Pos(it.Node))
+			if e == nil || !ok {
+				okIt = false
+				break
+			}
+			if per != nil && per.String() != e.String() {
+				r.fail(fmt.Sprintf("depth toData loop%d", ii), c.Pos(it.Node), fmt.Sprintf("toData: one iteration of the loop at %s changes the stack depth by %s on one path and by %s on another", c.Pos(it.Node), per, e))
+				okIt = false
+				break
+			}
+			per = e
+		}
+		if !okIt || per == nil {
+			continue
+		}
+		total := lconst(0)
+		if k, isC := per.isConst(); !isC || k != 0 {
+			trip, div, err := d.tripCount(it)
+			kk, isC := per.isConst()
+			if err != nil || !isC || kk%div != 0 {
+				r.undecided(fmt.Sprintf("depth toData loop%d", ii), c.Pos(it.Node), "per-iteration effect "+per.String()+": trip count not known")
+				continue
+			}
+			total = trip.scale(kk / div)
+		}
+		if it.IncludesBefore && len(it.Before) > 0 {
+			pre := &layoutPath{Atoms: it.Before, St: it.Exits[0].St}
+			if e, ok := d.seqEffect(pre, it.Before, iterEff, fmt.Sprintf("depth toData loop%d prefix", ii), c.Pos(it.Node)); e != nil && ok {
+				total = total.add(e, 1)
+			}
+		}
+		iterEff[it] = total
+	}
+	for pi, p := range cl.Paths {
+		atoms := m.live(p)
+		pkey := fmt.Sprintf("depth toData path%d", pi)
+		e, ok := d.seqEffect(p, atoms, iterEff, pkey, c.Pos(fd))
+		if e == nil || !ok {
+			continue
+		}
+		*judged++
+		got := m.applyZero(p.St, e)
+		r.check(got.String() == "1", pkey, c.Pos(fd), "a literal leaves one value",
+			fmt.Sprintf("compiler.toData emits code that leaves %s values for a literal on the path [%s] (one is required): the element count handed to NEWSLICE/NEWMAP/NEWSTRUCT does not match the elements pushed, so the constructor eats a neighbouring stack entry or leaves elements behind", got, condStrings(p.St)))
+	}
+}
+
+func loopReturns2(c *Ctx, callee types.Object) bool {
+	fd := c.DeclOf(callee)
+	return fd == nil || fd.Body == nil || loopReturns(fd)
 }
